@@ -183,6 +183,133 @@ def rule_dbm(S):
     S.require('R-DBM', 'dirty-bit set sites', len({(e['fn'].fid, e['loc']) for e in sets}), 7)
 
 
+def rule_desc(S):
+    facts = S.facts()
+    S.rule('R-DESC', 'descent (hand-over-hand validation): interior_node::get_child_of returns a non-null child only on the '
+                     'path where the child pointer was read, then the child\'s stable version, then the parent\'s stable '
+                     'version, the parent version equals the one the caller validated and the child is not deleted, and '
+                     'the caller\'s version is replaced by the child\'s; a vsplit change / deletion of the parent returns '
+                     'nullptr; find_border returns a border only for a version whose border flag was tested, restarts on '
+                     'a null child, and reports a non-root start node as WARN_RETRY_FROM_ROOT_OF_ALL with a null border')
+    f = facts.one(Y + 'interior_node::get_child_of')
+    vparam = [p['id'] for p in f.params if 'node_version64_body' in p['type']][0]
+    rets = {}
+
+    def step(ctx, nd, st):
+        child, cv, pv, ok_edge, vset, atoms = st
+        if nd['k'] == 'BinaryOperator' and nd.get('op') == '=':
+            l = f.strip(f.ch(nd)[0])
+            r = f.strip(f.ch(nd)[1], casts=True)
+            if l is not None and l['k'] == 'DeclRefExpr' and (l.get('ty') or '') == 'yakushima::base_node *':
+                if R.const_of(f, f.ch(nd)[1]) == 'null':
+                    return ('null', None, None, False, False, frozenset())
+                if any(x['k'] == 'MemberExpr' and x.get('name') == 'children' for x in f.walk(f.ch(nd)[1])):
+                    return (l['id'], None, None, False, False, frozenset())
+        if is_call(nd, cq=occ.STABLE):
+            rv = root_var(f, call_recv(f, nd))
+            var = R.assigned_var(f, nd)
+            if rv == child and child not in (None, 'null'):
+                return (child, var, None, False, False, frozenset())
+            if rv == 'this' and cv is not None:
+                return (child, cv, var, False, False, frozenset())
+            if rv == 'this':
+                return (child, cv, None, False, False, frozenset())
+        if nd['k'] == 'CXXOperatorCallExpr' and nd.get('cn') == 'operator=' and nd.get('mcls') == Y + 'node_version64_body':
+            a = [root_var(f, x) for x in nd.get('args', [])]
+            if a and a[0] == vparam:
+                return (child, cv, pv, ok_edge, a[1] == cv and cv is not None, atoms)
+        if nd['k'] == 'ReturnStmt':
+            rv = root_var(f, f.ch(nd)[0]) if f.ch(nd) else None
+            nonnull = child not in (None, 'null') and rv == child
+            d = dict(atoms)
+            e = rets.setdefault('return (child %s)' % ('non-null' if nonnull else 'null'),
+                                {'ok': True, 'loc': short_loc(nd), 'path': None, 'why': ''})
+            if nonnull and not (cv and pv and ok_edge and vset):
+                e['ok'] = False
+                e['path'] = e['path'] or ctx.witness()
+                e['why'] = 'a child is returned without: %s' % ', '.join(
+                    w for w, c in (('child version loaded after the pointer', cv), ('parent version re-loaded after it', pv),
+                                   ('parent unchanged and child not deleted', ok_edge),
+                                   ('caller version := child version', vset)) if not c)
+            return None
+        return st
+
+    def branch(ctx, blk, idx, st):
+        child, cv, pv, ok_edge, vset, atoms = st
+        if blk.term and 'cond' in blk.term and len(blk.succ) == 2:
+            flip, shape = R.cond_shape(f, blk.term['cond'])
+            if shape[0] == 'nonnull' and shape[1] == child and not ((idx == 0) != flip):
+                return ('null', None, None, False, False, frozenset())
+            c = f.strip(blk.term['cond'], casts=True)
+            t = term(f, blk.term['cond'])
+            d = dict(atoms)
+            if c is not None and c['k'] == 'CXXOperatorCallExpr' and c.get('cn') in ('operator==', 'operator!=') and \
+                    c.get('mcls') == Y + 'node_version64_body':
+                a = {root_var(f, x) for x in c.get('args', [])}
+                if a == {vparam, pv}:
+                    d['peq'] = (idx == 0) == (c['cn'] == 'operator==')
+            neg = False
+            u = t
+            while u[0] == 'un' and u[1] == '!':
+                neg = not neg
+                u = u[2]
+            if u[0] == 'call' and u[1] == occ.VB + 'get_deleted' and cv and u[2] == ('var', vname(cv)):
+                d['cdel'] = (idx == 0) != neg
+            atoms = frozenset(d.items())
+            ok_edge = d.get('peq') is True and d.get('cdel') is False
+        return (child, cv, pv, ok_edge, vset, atoms)
+
+    Explorer(f, step, branch).run((None, None, None, False, False, frozenset()))
+    S.require('R-DESC', 'returns of get_child_of', len(rets), 1)
+    for site, e in sorted(rets.items()):
+        S.ob('R-DESC', f.qname, site, e['ok'], 'hand-over-hand validated' if e['ok'] else e['why'], loc=e['loc'],
+             path=e['path'])
+    has_nonnull = any('non-null' in k for k in rets)
+    S.ob('R-DESC', f.qname, 'a validated child can be returned', has_nonnull, 'yes' if has_nonnull else
+         'get_child_of never returns a child', loc=f.loc)
+    g = facts.one(Y + 'find_border')
+    res = {}
+
+    def step2(ctx, nd, st):
+        border_known, fs = st
+        fs = R.track_assign(g, nd, fs, facts)
+        if nd['k'] == 'ReturnStmt':
+            t = term(g, g.ch(nd)[0]) if g.ch(nd) else None
+            isnull = t is not None and t[0] == 'call' and t[3] and t[3][0] == ('null',)
+            trail = R.branch_trail(ctx.ex, ctx.key, g, 1)
+            e = res.setdefault('return after [%s]' % '; '.join(trail), {'ok': True, 'loc': short_loc(nd), 'path': None})
+            if not isnull and not border_known:
+                e['ok'] = False
+                e['path'] = ctx.witness()
+            return None
+        return (border_known, fs)
+
+    def branch2(ctx, blk, idx, st):
+        border_known, fs = st
+        if blk.term and 'cond' in blk.term and len(blk.succ) == 2:
+            t = term(g, blk.term['cond'])
+            neg = False
+            while t[0] == 'un' and t[1] == '!':
+                neg = not neg
+                t = t[2]
+            if t[0] == 'call' and t[1] == occ.VB + 'get_border':
+                return (((idx == 0) != neg), fs)
+            if t[0] == 'call' and t[1] == occ.VB + 'get_deleted' and ((idx == 0) != neg):
+                return (True, fs)   # deleted root: by construction a border (the empty root), the caller checks
+        return st
+
+    Explorer(g, step2, branch2).run((False, frozenset()))
+    S.require('R-DESC', 'returns of find_border', len(res), 2)
+    for site, e in sorted(res.items()):
+        S.ob('R-DESC', g.qname, site, e['ok'], 'a node is returned as border only after its border flag (or the '
+             'deleted-root case) was tested on the validated version' if e['ok'] else
+             'find_border returns a node as border without having tested the border flag of its version',
+             loc=e['loc'], path=e['path'])
+    restart = any(blk.term and blk.term.get('k') == 'GotoStmt' for blk in g.blocks.values())
+    S.ob('R-DESC', g.qname, 'restart on a null child', restart, 'goto retry present' if restart else
+         'find_border no longer restarts when get_child_of detects a structure change', loc=g.loc)
+
+
 def run(S):
     S.undecided = ['existence of a linearization for every history',
                    'memory-model adequacy of the acquire/release annotations',
@@ -193,5 +320,6 @@ def run(S):
                      'a violation or as analysis-broken, never accepted silently']
     rule_var(S)
     rule_lookup(S)
+    rule_desc(S)
     rule_wul(S)
     rule_dbm(S)
